@@ -383,7 +383,7 @@ MUTANTS = [
     Mut("desc-88-rejects-zero", _C, "_color_desc_88", "if not 0 <= num < 88:", "if not 0 < num < 88:", "SIB|"),
     Mut("desc-256-cube-boundary", _C, "_color_desc_256", "if num < _GRAY_START_256:", "if num <= _GRAY_START_256:", "SIB|"),
     Mut("true-to-256-int-unguarded", _C, "_true_to_256", "    try:\n        c256 = _parse_color_256(\"#\" + \"\".join(format(_int_digits(x, 16) // 16, \"x\") for x in (desc[1:3], desc[3:5], desc[5:7])))\n    except ValueError:\n        return None", "    c256 = _parse_color_256(\"#\" + \"\".join(format(_int_digits(x, 16) // 16, \"x\") for x in (desc[1:3], desc[3:5], desc[5:7])))", "EXC|"),
-    Mut("hash-ignores-value", _C, "AttrSpec.__hash__", "return hash((self.__class__, self.__value))", "return hash(self.__class__)", "SIB|"),
+    Mut("hash-ignores-value", _C, "AttrSpec.__hash__", "return hash((AttrSpec, self.__value))", "return hash(AttrSpec)", "SIB|"),
     Mut("eq-ignores-truecolor-marker", _C, "AttrSpec.__eq__", "return isinstance(other, AttrSpec) and self.__value == other._value", "return isinstance(other, AttrSpec) and (self.__value ^ other._value) & ~_HIGH_TRUE_COLOR == 0", "SIB|"),
     Mut("true-to-256-none-unchecked", _C, "_true_to_256", "    if c256 is None:\n        return None\n", "", "NULLFLOW|display.common._true_to_256"),
     Mut("foreground-colour-truthiness", _C, "AttrSpec.__set_foreground", "            if color is not None:\n                raise AttrSpecError(f\"More than one color given", "            if color:\n                raise AttrSpecError(f\"More than one color given", "TRUTHY|"),
